@@ -63,3 +63,10 @@ Lemma tie_signalboom_text : f_bomb_signalboom_text =
   /\ boom_uid = 100%N.
 Proof. split; reflexivity. Qed.
 Lemma tie_register_actions : f_action_registerevent = 0%N /\ f_action_unregisterevent = 1%N. Proof. split; reflexivity. Qed.
+
+(* objects with several properties (PropertyMulti.v): one table — the single map write of tie_save_text,
+   keyed by the property's name, under the one mutex —; a generated object IS bus.NewBasicObject(actor,
+   meta object, onPropertyChange), which is how the harness builds its several-property object; a numeric
+   name is looked up in the declared properties (localize: idx_uid) *)
+Lemma tie_multi_object : f_bomb_object_is_newbasicobject = true /\ f_setproperty_uid_in_meta_properties = true.
+Proof. split; reflexivity. Qed.
